@@ -139,6 +139,15 @@ class StrLen:
         d = lambda n: len(str(int(n)))
         return d(lo), d(hi)
 
+    def _mark_unknown(self, what: str):
+        """a string whose length this interpreter cannot bound because it does not interpret the producing call (not because it is unbounded)"""
+        root = self
+        while getattr(root, "shared", None) is not None:
+            root = root.shared
+        if not hasattr(root, "unknown"):
+            root.unknown = []
+        root.unknown.append(what)
+
     def str_expr(self, e: ast.AST, env) -> SVal:
         if isinstance(e, ast.Constant) and isinstance(e.value, str):
             return SVal(Lin(len(e.value)), [])
@@ -204,8 +213,10 @@ class StrLen:
             if isinstance(fn, ast.Name) and fn.id in self.helpers and self.depth < 3:
                 return self._call_helper(self.helpers[fn.id], e, env)
             if isinstance(fn, ast.Name):
+                self._mark_unknown(f"result of {fn.id}()")
                 return SVal(None, [])      # unknown callee: any length
             if isinstance(fn, ast.Attribute):
+                self._mark_unknown(f"result of .{fn.attr}()")
                 return SVal(None, [])
         raise AnalysisError(f"{self.where}: string expression not understood: {ast.unparse(e)}")
 
